@@ -19,7 +19,7 @@ NUMS = ["0", "1", "-1", "42", "1_000", "1.5", "-0.5", "9223372036854775807", "92
         "-9223372036854775808", "99999999999999999999999", "1__2", "1.", "0.0", "1e5", "0x10", "1.5.2"]
 STRINGS = ['""', '"a"', '"a b"', '"\\n"', '"\\""', '"\\\\"', '"{"', '"é"', '"☃😀"', '"a\nb"', '"unterminated',
            '"ends with backslash\\"', '"\\q"', '"//"', '"\t"']
-COMMENTS = ["// c\n", "//\n", "// a=b\n", "/// doc\n", "// é☃\n", "// {\n", '// "\n', "// args: x\n", "//"]
+COMMENTS = ["// c\n", "//\n", "// a=b\n", "/// doc\n", "// é☃\n", "// {\n", '// "\n', "// arguments: x\n", "//"]
 NONASCII = ["é", "☃", "😀", "\u00a0", "\u2028", "\u3000", "\ufeff", "\u0301", "ß", "中", "\u200b", "\u0085", "\u1680"]
 WS = [" ", " ", " ", "\n", "\n", "  ", "\t", "\r\n", "\r", "", "", "\n\n", "\u000b", "\u000c"]
 SHEBANG = "#!/usr/bin/env garden\n"
